@@ -115,3 +115,23 @@ WIDE_HEADERS = ['**kern', '**text', '**kern', '**dynam', '**kern', '**harm', '**
 def wide_docs(seed):
     """twelve spines (two-digit spine ids): beyond the width bound of the exhaustive spaces"""
     return [(WIDE_HEADERS, ['k', 'i', 'b', 'd', 'd', 'S0', 'd', 'J0', 'X3', 'd', 'c', 'b', 'd', 'S9', 'd', 'b'], seed)]
+
+
+def repetitive_models(seed):
+    """the SAME cells over and over (60 data rows, 30 barlines): the k-th occurrence of a token, two- and three-digit stage numbers"""
+    from .model import Model
+    out = []
+    for h in (['**kern'], ['**kern', '**text'], ['**dynam', '**kern', '**kern']):
+        m = Model(h)
+        m.add([A.V('*clefG2', 'CLEF') if t in A.KERN_LIKE else A.NULL_I for t in h])
+        d1 = [A.data_cell(t, 1, i, seed) for i, t in enumerate(h)]
+        d2 = [A.data_cell(t, 4, i, seed + 2) for i, t in enumerate(h)]
+        for k in range(30):
+            m.add([A.V(f'={k + 1}', 'BARLINES', '=')] * len(h))
+            m.add(d1)
+            m.add(d2 if k % 3 else d1)
+            if k == 17:
+                m.add([A.comment_cell(0, i, seed) for i in range(len(h))])
+        m.add([A.V('==', 'BARLINES')] * len(h))
+        out.append(m.close())
+    return out
